@@ -418,18 +418,6 @@ mod worker {
             ready_uni_h3_streams: &mpsc::Sender<Result<StreamUniRemoteH3, DriverError>>,
             ready_uni_wt_streams: &mpsc::Sender<StreamUniRemoteWT>,
         ) -> Result<(), DriverError> {
-            trace!("H3 uni queue capacity: {}", ready_uni_h3_streams.capacity());
-            let h3_slot = ready_uni_h3_streams
-                .clone()
-                .reserve_owned()
-                .await
-                .expect("Receiver cannot be dropped");
-
-            let wt_slot = match ready_uni_wt_streams.clone().reserve_owned().await {
-                Ok(wt_slot) => wt_slot,
-                Err(mpsc::error::SendError(_)) => return Err(DriverError::NotConnected),
-            };
-
             let stream_quic = Stream::accept_uni(quic_connection)
                 .await
                 .ok_or(DriverError::NotConnected)?;
@@ -437,12 +425,17 @@ mod worker {
             let stream_id = stream_quic.id();
             debug!("New incoming uni stream ({})", stream_id);
 
+            let h3_sender = ready_uni_h3_streams.clone();
+            let wt_sender = ready_uni_wt_streams.clone();
+
             tokio::spawn(
                 async move {
+                    // Hand-off slots are taken only once the stream type is known, so a peer
+                    // that stalls in the middle of the stream header cannot block other streams.
                     let stream_h3 = match stream_quic.upgrade().await {
                         Ok(stream_h3) => stream_h3,
                         Err(ProtoReadError::H3(error_code)) => {
-                            h3_slot.send(Err(DriverError::Proto(error_code)));
+                            let _ = h3_sender.send(Err(DriverError::Proto(error_code))).await;
                             return;
                         }
                         Err(ProtoReadError::IO(_)) => {
@@ -455,9 +448,9 @@ mod worker {
 
                     if matches!(stream_kind, StreamKind::WebTransport) {
                         let stream_wt = stream_h3.upgrade();
-                        wt_slot.send(stream_wt);
+                        let _ = wt_sender.send(stream_wt).await;
                     } else {
-                        h3_slot.send(Ok(stream_h3));
+                        let _ = h3_sender.send(Ok(stream_h3)).await;
                     }
                 }
                 .instrument(debug_span!("Stream", "id={}", stream_id)),
@@ -473,24 +466,15 @@ mod worker {
             >,
             ready_bi_wt_streams: &mpsc::Sender<StreamBiRemoteWT>,
         ) -> Result<(), DriverError> {
-            trace!("H3 bi queue capacity: {}", ready_bi_h3_streams.capacity());
-            let h3_slot = ready_bi_h3_streams
-                .clone()
-                .reserve_owned()
-                .await
-                .expect("Receiver cannot be dropped");
-
-            let wt_slot = match ready_bi_wt_streams.clone().reserve_owned().await {
-                Ok(wt_slot) => wt_slot,
-                Err(mpsc::error::SendError(_)) => return Err(DriverError::NotConnected),
-            };
-
             let stream_quic = Stream::accept_bi(quic_connection)
                 .await
                 .ok_or(DriverError::NotConnected)?;
 
             let stream_id = stream_quic.id();
             debug!("New incoming bi stream ({})", stream_id);
+
+            let h3_sender = ready_bi_h3_streams.clone();
+            let wt_sender = ready_bi_wt_streams.clone();
 
             tokio::spawn(
                 async move {
@@ -505,7 +489,7 @@ mod worker {
                                 }
                             }
                             Err(ProtoReadError::H3(error_code)) => {
-                                h3_slot.send(Err(DriverError::Proto(error_code)));
+                                let _ = h3_sender.send(Err(DriverError::Proto(error_code))).await;
                                 return;
                             }
                             Err(ProtoReadError::IO(_)) => {
@@ -519,10 +503,10 @@ mod worker {
                     match frame.session_id() {
                         Some(session_id) => {
                             let stream_wt = stream_h3.upgrade(session_id);
-                            wt_slot.send(stream_wt);
+                            let _ = wt_sender.send(stream_wt).await;
                         }
                         None => {
-                            h3_slot.send(Ok((stream_h3, frame)));
+                            let _ = h3_sender.send(Ok((stream_h3, frame))).await;
                         }
                     }
                 }
